@@ -36,7 +36,8 @@ class WC(CombinatorialClass[W]):
     """Words over `alphabet` that start with `prefix` and avoid `patterns` as consecutive factors.
     just_prefix: the class holds only the word `prefix`.  stats = ((name, letters), ...)."""
 
-    def __init__(self, prefix, patterns, alphabet, just_prefix=False, stats=()):
+    def __init__(self, prefix, patterns, alphabet, just_prefix=False, stats=(), hidden=False):
+        self.hidden = bool(hidden)  # a one-word class that does not declare itself an atom (is_atom is optional knowledge)
         self.alphabet = tuple(sorted(alphabet))
         self.prefix = W(prefix)
         self.patterns = tuple(sorted(map(W, set(patterns))))
@@ -67,7 +68,7 @@ class WC(CombinatorialClass[W]):
         return any(p in self.prefix for p in self.patterns)
 
     def is_atom(self):
-        return self.just_prefix
+        return self.just_prefix and not self.hidden
 
     def minimum_size_of_object(self):
         return len(self.prefix)
@@ -92,18 +93,18 @@ class WC(CombinatorialClass[W]):
     def to_jsonable(self):
         d = super().to_jsonable()
         d.update(prefix=str(self.prefix), patterns=[str(p) for p in self.patterns], alphabet=list(self.alphabet),
-                 just_prefix=int(self.just_prefix), stats=[list(s) for s in self.stats])
+                 just_prefix=int(self.just_prefix), stats=[list(s) for s in self.stats], hidden=int(self.hidden))
         return d
 
     @classmethod
     def from_dict(cls, d):
-        return cls(d["prefix"], d["patterns"], d["alphabet"], bool(d["just_prefix"]), [tuple(s) for s in d["stats"]])
+        return cls(d["prefix"], d["patterns"], d["alphabet"], bool(d["just_prefix"]), [tuple(s) for s in d["stats"]], bool(d.get("hidden", 0)))
 
     def to_bytes(self):
         raise NotImplementedError
 
     def key(self):
-        return (self.prefix, self.patterns, self.alphabet, self.just_prefix, self.stats)
+        return (self.prefix, self.patterns, self.alphabet, self.just_prefix, self.stats) + (("hidden",) if self.hidden else ())
 
     def __eq__(self, o):
         return isinstance(o, WC) and self.key() == o.key()
@@ -124,7 +125,7 @@ class WC(CombinatorialClass[W]):
                 "stats": [[idx[x] for x in l if x in idx] for _, l in self.stats]}
 
     def with_(self, **kw):
-        d = dict(prefix=self.prefix, patterns=self.patterns, alphabet=self.alphabet, just_prefix=self.just_prefix, stats=self.stats)
+        d = dict(prefix=self.prefix, patterns=self.patterns, alphabet=self.alphabet, just_prefix=self.just_prefix, stats=self.stats, hidden=False)
         d.update(kw)
         return WC(**d)
 
@@ -447,6 +448,108 @@ class ExpandTrim(Simple, DisjointUnionStrategy[WC, W]):
         k = len(c.alphabet)
         idx = k if len(w) == len(c.prefix) else (k - 1 - c.alphabet.index(w[len(c.prefix)]))
         return tuple(w if i == idx else None for i in range(len(children)))
+
+
+
+class RemoveFrontHidden(RemoveFront):
+    """RemoveFront whose first factor is a *hidden* atom: a one-word class that does not say it is an atom, so the
+    product has two factors without a known maximum size and the first has no objects at most sizes."""
+
+    def decomposition_function(self, c):
+        kids = super().decomposition_function(c)
+        if kids is None:
+            return None
+        return (kids[0].with_(just_prefix=True, hidden=True), kids[1])
+
+    def formal_step(self):
+        return "remove front of prefix (hidden atom)"
+
+
+class HiddenAtomVerified(Simple, VerificationStrategy[WC, W]):
+    """Verifies hidden atoms by brute force."""
+
+    def __init__(self, ignore_parent=True):
+        super().__init__(ignore_parent=ignore_parent)
+
+    def verified(self, c):
+        return c.just_prefix and c.hidden and not c.is_empty()
+
+    def get_terms(self, c, n):
+        return c.get_terms(n)
+
+    def get_objects(self, c, n):
+        return c.get_objects(n)
+
+    def get_genf(self, c, funcs=None):
+        r = sympy.var("x") ** len(c.prefix)
+        for (n, _), v in zip(c.stats, c.get_parameters(c.prefix)):
+            r *= sympy.var(n) ** v
+        return r
+
+    def random_sample_object_of_size(self, c, n, **p):
+        return next(c.objects_of_size(n, **p))
+
+    def formal_step(self):
+        return "is a hidden atom"
+
+    @classmethod
+    def from_dict(cls, d):
+        return cls(**d)
+
+
+class ExpandTrimRename(ExpandTrim):
+    """ExpandTrim where a child that keeps exactly one statistic names it 'z': two children then use the same name for
+    their own statistic although it comes from different parent statistics, and a parent statistic is renamed while
+    another is not passed at all."""
+
+    def decomposition_function(self, c):
+        kids = ExpandTrim.decomposition_function(self, c)
+        if kids is None:
+            return None
+        out = []
+        for k in kids:
+            out.append(k.with_(stats=[("z", k.stats[0][1])], just_prefix=k.just_prefix) if len(k.stats) == 1 and len(c.stats) >= 2 else k)
+        if all(a == b for a, b in zip(out, kids)):
+            return None
+        return tuple(out)
+
+    def extra_parameters(self, c, children=None):
+        plain = ExpandTrim.decomposition_function(self, c)
+        if children is None:
+            children = self.decomposition_function(c)
+        res = []
+        for orig, ch in zip(plain, children):
+            if ch.stats and ch.stats[0][0] == "z" and len(orig.stats) == 1:
+                res.append({orig.stats[0][0]: "z"})
+            else:
+                res.append({n: n for n, _ in ch.stats})
+        return tuple(res)
+
+    def formal_step(self):
+        return "expand by next letter, trimming and renaming statistics"
+
+    def __repr__(self):
+        return "ExpandTrimRename(always=%s)" % self.always
+
+
+class ParentThenOwnFactory(StrategyFactory[WC]):
+    """In one call on a class C(p.x): first a ready rule for the *other* class C(p), then a strategy for the class itself."""
+
+    def __call__(self, c):
+        if not c.just_prefix and len(c.prefix) >= 1:
+            yield Expand()(c.with_(prefix=c.prefix[:-1]))
+        if not c.just_prefix:
+            yield Expand()
+
+    def __str__(self):
+        return "parent-then-own factory"
+
+    def __repr__(self):
+        return "ParentThenOwnFactory()"
+
+    @classmethod
+    def from_dict(cls, d):
+        return cls()
 
 
 class RenameStats(Simple, DisjointUnionStrategy[WC, W]):
@@ -893,7 +996,7 @@ def basic_pack(**kw):
 def make_pack(sym=False, inf=False, merge=False, iterative=False, factory=False, parent_factory=False,
               prefix_verified=None, prefix_verified_rev=None, empty_prefix_verified=False, two_sets=False, no_initial=False, name=None, expand=True,
               split=False, oneway=False, lazy=False, trim=False, rename=False, mono=False, fac2=False, cycle=False,
-              redundant_parent=False, brute=None, trimonly=False):
+              redundant_parent=False, brute=None, trimonly=False, hidden=False, trimrename=False, pfactory2=False, noinf=False):
     inferral = ([MinimizePatterns()] if inf else []) + ([MergeStats()] if merge else []) + ([RenameStats()] if rename else [])
     exp = [ExpandFactory()] if factory else [Expand()]
     if parent_factory:
@@ -904,6 +1007,12 @@ def make_pack(sym=False, inf=False, merge=False, iterative=False, factory=False,
         exp = [ExpandTrim()] + exp
     if trimonly:
         exp = [ExpandTrim(always=True)]
+    if trimrename:
+        exp = [ExpandTrimRename()] + exp
+    if pfactory2:
+        exp = [ParentThenOwnFactory()]
+    if noinf:
+        exp = [Expand(inferrable=False)]
     if fac2:
         exp = [RemoveThenExpandFactory()]
     if redundant_parent:
@@ -925,6 +1034,9 @@ def make_pack(sym=False, inf=False, merge=False, iterative=False, factory=False,
     initial = [] if no_initial else ([SplitFront(), RemoveFront()] if split else [RemoveFront()])
     if mono:
         initial = [SplitMonotone()] + initial
+    if hidden and not no_initial:
+        initial = [RemoveFrontHidden()]
+        ver.append(HiddenAtomVerified())
     if rename and not no_initial:
         initial = [RemoveFrontRename()] + initial
     if fac2:
